@@ -16,7 +16,7 @@ CFG = dict(
          "Non-trivial = at least one record was emitted; distinct by input line.",
     nontrivial=["records"],
     jobs=seeds(1, 4),
-    lean_files=["Trig", "Pipe", "PipeJudge", "C02", "C09", "Pipe1", "Pipe2", "Edge", "Level", "Auto", "Passes", "TrigIdx", "EdgeGlobal", "LevelGlobal", "AutoDense", "AutoGlobal", "PipeProj", "Pipe3", "EmtRecs", "Reconf", "SoundGlobal", "Compose"],
+    lean_files=["Trig", "Pipe", "PipeJudge", "C02", "C09", "Pipe1", "Pipe2", "Edge", "Level", "Auto", "Passes", "TrigIdx", "EdgeGlobal", "LevelGlobal", "AutoDense", "AutoGlobal", "PipeProj", "Pipe3", "EmtRecs", "Reconf", "SoundGlobal", "Compose", "AutoSpacing"],
     trusted_base=_PIPE_TB,
     assumptions=["auto delay enters the model as an integer number of samples computed with the code's own expression",
                  "the auto-gap theorem is for no veto (as the property says); with a veto only no-crash/in-range is proved and the oracle judges nothing about gaps"],
@@ -63,4 +63,7 @@ THEOREMS = [
     ("DastardV.Props.C02", "DastardV.C02.C02_block_auto_in_range"),
     ("DastardV.Props.C02", "DastardV.C02.configureTrigger_epoch"),
     ("DastardV.Lemmas.EdgeGlobal", "DastardV.Trig.stepChan_inv"),
+    ("DastardV.Lemmas.AutoSpacing", "DastardV.C02.C02_auto_spacing"),
+    ("DastardV.Lemmas.AutoSpacing", "DastardV.C02.C02_auto_spacing_all"),
+    ("DastardV.Lemmas.AutoSpacing", "DastardV.C02.C02_auto_spacing_after_reconfigure"),
 ]
